@@ -335,4 +335,201 @@ Proof.
   - rewrite (KS nm_POINT nm_LABELS) by (right; ne). exact I10a.
   - rewrite (KS nm_ANALOG nm_LABELS) by (left; exact NA). exact I10b.
 Qed.
+
+(* ---------- the general form: whatever the index, as long as the new frame list has the announced shape ---------- *)
+Lemma strs_eqb_refl : forall l, strs_eqb l l = true.
+Proof. induction l as [|x l IH]; cbn [strs_eqb]; [reflexivity|]. rewrite IH, andb_true_r. apply bstr_eqb_eq. reflexivity. Qed.
+
+Theorem frame_call_keeps_inv : forall f idx s s' fs' g0 gt u a,
+  Inv s -> MT (groups s) ->
+  put empty_frame (frames s) f idx = Ok fs' ->
+  lk_int0 (groups s) nm_POINT nm_USED = Some u ->
+  lk_int0 (groups s) nm_ANALOG nm_USED = Some a -> a <> 0 -> 1 <= h_byframe (hdr s) ->
+  (* the frame list after the store: its first frame holds analog data of the announced shape and names ... *)
+  fs' = g0 :: gt -> fr_subs g0 <> [] -> nlen (fr_subs g0) = h_byframe (hdr s) -> nlen (fr_pts g0) = u -> nan_of g0 = a ->
+  lk_strs (groups s) nm_POINT nm_LABELS = Some (map pt_name (fr_pts g0)) ->
+  (forall sf0 t, fr_subs g0 = sf0 :: t -> lk_strs (groups s) nm_ANALOG nm_LABELS = Some (map ch_name sf0)) ->
+  (* ... and every filled frame has the announced shape *)
+  forallb (fun x => nlen (fr_pts x) =? u) (filter filled fs') = true ->
+  forallb (fun x => nlen (fr_subs x) =? h_byframe (hdr s)) (filter filled fs') = true ->
+  forallb (fun x => forallb (fun sf : subframe => nlen sf =? a) (fr_subs x)) (filter filled fs') = true ->
+  nlen fs' < 2147483648 -> u < 2147483648 -> a < 2147483648 -> a * h_byframe (hdr s) < two64 ->
+  api_frame f_key f_tosize f_div f_is_zero f idx s = ROk tt s' ->
+  Inv s'.
+Proof.
+  intros f idx s s' fs' g0 gt u a HI HM P Eu Ha Ha0 Bf1 Efs Hsub Hns Hnp Na Lp Lc S1 S2 S3 Sz1 Sz2 Sz3 Sz4 H.
+  unfold Inv, inv_b in HI. set (r := inv_report_of s) in HI.
+  apply andb_prop in HI. destruct HI as [HI I10]. apply andb_prop in HI. destruct HI as [HI I9]. apply andb_prop in HI. destruct HI as [HI I8].
+  apply andb_prop in HI. destruct HI as [HI I7]. apply andb_prop in HI. destruct HI as [HI I6]. apply andb_prop in HI. destruct HI as [HI I5].
+  apply andb_prop in HI. destruct HI as [HI I4]. apply andb_prop in HI. destruct HI as [HI I3]. apply andb_prop in HI. destruct HI as [I1 I2].
+  unfold r, inv_report_of in I1, I6, I7, I9. clear I2 I3 I4 I5 I8 I10.
+  cbn [r_points_hdr r_analogs_hdr r_analogs_meas r_label_counts] in *.
+  rewrite Ha, Eu in *.
+  assert (Bf1b : (1 <=? h_byframe (hdr s)) = true) by lia. rewrite Bf1b in I6, I7.
+  assert (F0 : filled g0 = true).
+  { unfold filled. destruct (fr_subs g0) as [|x t]; [contradiction|]. unfold nlen. cbn [length]. rewrite Bool.andb_false_r. reflexivity. }
+  destruct (lk_int0_r 0 _ _ _ _ Eu) as [vu [Rvu Evu]]. destruct (lk_int0_r 0 _ _ _ _ Ha) as [va [Rva Eva]].
+  assert (CA : counts_agree (set_frames s fs')).
+  { unfold counts_agree. cbn [frames set_frames groups]. rewrite Efs. split.
+    - exists vu. split; [exact Rvu|lia].
+    - exists va. split; [exact Rva|lia]. }
+  assert (Sm : forall fs'', put empty_frame (frames s) f idx = Ok fs'' -> small_frames fs'').
+  { intros fs'' E. rewrite P in E. injection E as <-. unfold small_frames. split; [exact Sz1|]. rewrite Efs. split; [lia|rewrite Na; exact Sz3]. }
+  destruct (api_frame_counts f_key f_tosize f_div f_is_zero f_key_nt f_tosize_nt f idx s s' HM Sm H) as [_ CF].
+  pose proof (api_frame_keeps_parameters f_key f_tosize f_div f_is_zero f idx s s' H
+                (fun fs'' E => ltac:(rewrite P in E; injection E as <-; exact CA))) as KL.
+  rewrite api_frame_factor in H. destruct (frame_guard f_is_zero (groups s) (hdr s) f) as [[]|x|t]; try discriminate.
+  unfold store_and_update in H. cbv [bind getS] in H. rewrite P in H. cbn [lift] in H. cbv [putS] in H.
+  destruct (update_parameters_keeps_others f_key f_tosize f_div (set_frames s fs') _ CA H) as [[s1 [E [Fr1 [Hd1 [_ Kl1]]]]]|[[e [s2 E]]|[t E]]]; try discriminate.
+  symmetry in E. cbn [frames set_frames hdr groups] in Fr1, Hd1, Kl1.
+  destruct (update_header_agrees f_key f_tosize f_div true s1 s' E) as (G' & Fr' & _ & [u' [Ru' Hp']] & _ & [fz [Rfz Hfr]] & [ga [Gga [_ Gn]]] & Hbf).
+  pose proof (update_header_exact f_key f_tosize f_div true s1 s' E) as Hex.
+  assert (Fs' : frames s' = g0 :: gt) by (rewrite Fr', Fr1; exact Efs).
+  assert (Bf' : h_byframe (hdr s') = h_byframe (hdr s)).
+  { rewrite <- Hns. apply Hbf; [|exact Hsub]. unfold first_frame. rewrite Fr1, Efs. reflexivity. }
+  assert (Lu : lk_int0 (groups s') nm_POINT nm_USED = Some u).
+  { assert (N1 : nm_USED <> nm_FRAMES) by ne. pose proof (KL nm_POINT nm_USED (or_intror N1)) as K1.
+    rewrite (lk_int0_ext (groups s) (groups s') nm_POINT nm_USED K1). exact Eu. }
+  assert (La : lk_int0 (groups s') nm_ANALOG nm_USED = Some a).
+  { assert (N1 : nm_ANALOG <> nm_POINT) by ne. pose proof (KL nm_ANALOG nm_USED (or_introl N1)) as K1.
+    rewrite (lk_int0_ext (groups s) (groups s') nm_ANALOG nm_USED K1). exact Ha. }
+  assert (Hpts : h_points (hdr s') = u).
+  { rewrite Hp'. pose proof (r_int0_lk _ _ _ _ _ Ru') as L. rewrite <- G' in L. rewrite Lu in L. injection L as L. lia. }
+  assert (Han : h_nb_analogs (hdr s') = a).
+  { destruct (lk_int0_lookup _ _ _ _ La) as [pa Lpa]. rewrite G' in Lpa.
+    destruct (Gn (lookup_params_nonempty _ _ _ _ _ Lpa Gga)) as [au [Rau Hau]].
+    pose proof (r_int0_lk _ _ _ _ _ Rau) as L. rewrite <- G' in L. rewrite La in L. injection L as L.
+    rewrite Hau; [lia| rewrite Bf'; lia | rewrite Bf'; rewrite <- L; exact Sz4]. }
+  apply andb_prop in I9. destruct I9 as [I9 I9h]. apply andb_prop in I9. destruct I9 as [I9 I9g]. apply andb_prop in I9. destruct I9 as [I9 I9f].
+  apply andb_prop in I9. destruct I9 as [I9 I9e]. apply andb_prop in I9. destruct I9 as [I9 I9d]. apply andb_prop in I9. destruct I9 as [I9 I9c].
+  apply andb_prop in I9. destruct I9 as [I9a I9b].
+  destruct CF as [[vf [Rvf Evf]] _].
+  pose proof (r_int0_lk _ _ _ _ _ Rvf) as Lf.
+  assert (Efz : fz = vf) by (rewrite <- G' in Rfz; exact (r_int0_det _ _ _ _ _ _ _ Rfz Rvf)).
+  assert (Ia : h_nb_analogs (hdr s) = a) by (cbn [opt_eqb] in I6; lia).
+  assert (KC : forall g n, (g <> nm_POINT \/ n <> nm_FRAMES) -> lk_count (groups s') g n = lk_count (groups s) g n)
+    by (intros g n Hne; apply lk_count_ext, KL, Hne).
+  assert (KS : forall g n, (g <> nm_POINT \/ n <> nm_FRAMES) -> lk_strs (groups s') g n = lk_strs (groups s) g n)
+    by (intros g n Hne; apply lk_strs_ext, KL, Hne).
+  assert (NA : nm_ANALOG <> nm_POINT) by ne.
+  unfold Inv, inv_b, inv_report_of.
+  cbn [r_points_hdr r_points_frames r_frames_hdr r_frames_stored r_subframes r_analogs_hdr r_analogs_meas r_analogs_frames r_label_counts r_label_order].
+  rewrite Lu, La, Fs', Bf', Bf1b, F0. rewrite <- Efs.
+  repeat (apply andb_true_intro; split).
+  - cbn [opt_eqb]. lia.
+  - exact S1.
+  - rewrite Lf. cbn [opt_eqb]. rewrite Hfr; [rewrite Efz; apply N.eqb_refl|right; lia].
+  - rewrite Lf. cbn [opt_eqb]. rewrite Fs', <- Efs in Evf. lia.
+  - exact S2.
+  - cbn [opt_eqb]. lia.
+  - assert (Ex' : exact (hdr s')).
+    { apply Hex.
+      - rewrite Hd1. unfold exact. lia.
+      - rewrite Hd1, Bf'. lia.
+      - intros au Rau. pose proof (r_int0_lk _ _ _ _ _ Rau) as L. rewrite <- G' in L. rewrite La in L. injection L as L. rewrite Bf'. lia. }
+    unfold exact in Ex'. lia.
+  - exact S3.
+  - rewrite (KC nm_POINT nm_LABELS) by (right; ne). exact I9a.
+  - rewrite (KC nm_POINT nm_DESCRIPTIONS) by (right; ne). exact I9b.
+  - rewrite (KC nm_POINT nm_UNITS) by (right; ne). exact I9c.
+  - rewrite (KC nm_ANALOG nm_LABELS) by (left; exact NA). exact I9d.
+  - rewrite (KC nm_ANALOG nm_DESCRIPTIONS) by (left; exact NA). exact I9e.
+  - rewrite (KC nm_ANALOG nm_SCALE) by (left; exact NA). exact I9f.
+  - rewrite (KC nm_ANALOG nm_OFFSET) by (left; exact NA). exact I9g.
+  - rewrite (KC nm_ANALOG nm_UNITS) by (left; exact NA). exact I9h.
+  - rewrite (KS nm_POINT nm_LABELS) by (right; ne). rewrite Lp. apply strs_eqb_refl.
+  - destruct (fr_subs g0) as [|sf0 t] eqn:Es; [reflexivity|]. rewrite (KS nm_ANALOG nm_LABELS) by (left; exact NA).
+    rewrite (Lc sf0 t eq_refl). apply strs_eqb_refl.
+Qed.
+
+(* ---------- replacing a stored frame (any index below the count) ---------- *)
+Lemma strs_eqb_eq : forall a b, strs_eqb a b = true -> a = b.
+Proof.
+  induction a as [|x a IH]; destruct b as [|y b]; cbn [strs_eqb]; intros H; try discriminate; [reflexivity|].
+  apply andb_prop in H. destruct H as [H1 H2]. apply bstr_eqb_eq in H1. subst y. f_equal. apply IH. exact H2.
+Qed.
+Lemma forallb_filter_replace : forall A (p q : A -> bool) l i x,
+  forallb q (filter p l) = true -> (p x = true -> q x = true) -> forallb q (filter p (replace_nth i x l)) = true.
+Proof.
+  intros A p q l. induction l as [|h t IH]; intros i x H Hx; [destruct i; reflexivity|].
+  destruct i as [|i]; cbn [replace_nth filter] in *.
+  - destruct (p h); destruct (p x) eqn:Px; cbn [forallb] in *; try (apply andb_prop in H; destruct H as [_ H]); try exact H;
+      apply andb_true_intro; (split; [apply Hx; reflexivity|exact H]).
+  - destruct (p h); cbn [forallb] in *.
+    + apply andb_prop in H. destruct H as [H1 H2]. apply andb_true_intro. split; [exact H1|apply IH; assumption].
+    + apply IH; assumption.
+Qed.
+Lemma replace_nth_length : forall A (l : list A) i x, length (replace_nth i x l) = length l.
+Proof. intros A l. induction l as [|h t IH]; intros i x; [destruct i; reflexivity|]. destruct i; cbn [replace_nth length]; [reflexivity|]. rewrite IH. reflexivity. Qed.
+
+Theorem frame_replace_keeps_inv : forall f i s s' f0 ft a,
+  Inv s -> MT (groups s) ->
+  frames s = f0 :: ft -> fr_subs f0 <> [] ->
+  lk_int0 (groups s) nm_ANALOG nm_USED = Some a -> a <> 0 ->
+  announced s f ->
+  i < nlen (frames s) ->
+  nlen (frames s) < 2147483648 -> nlen (fr_pts f0) < 2147483648 -> a < 2147483648 -> a * h_byframe (hdr s) < two64 ->
+  api_frame f_key f_tosize f_div f_is_zero f (Some i) s = ROk tt s' ->
+  Inv s'.
+Proof.
+  intros f i s s' f0 ft a HI HM Ef Hsub Ha Ha0 [An1 [An2 An3]] Hi Sz1 Sz2 Sz3 Sz4 H.
+  pose proof HI as HI0.
+  unfold Inv, inv_b in HI. set (r := inv_report_of s) in HI.
+  apply andb_prop in HI. destruct HI as [HI I10]. apply andb_prop in HI. destruct HI as [HI I9]. apply andb_prop in HI. destruct HI as [HI I8].
+  apply andb_prop in HI. destruct HI as [HI I7]. apply andb_prop in HI. destruct HI as [HI I6]. apply andb_prop in HI. destruct HI as [HI I5].
+  apply andb_prop in HI. destruct HI as [HI I4]. apply andb_prop in HI. destruct HI as [HI I3]. apply andb_prop in HI. destruct HI as [I1 I2].
+  unfold r, inv_report_of in I1, I2, I3, I4, I5, I6, I7, I8, I9, I10.
+  cbn [r_points_hdr r_points_frames r_frames_hdr r_frames_stored r_subframes r_analogs_hdr r_analogs_meas r_analogs_frames r_label_counts r_label_order] in *.
+  rewrite Ha in *.
+  assert (F0 : filled f0 = true).
+  { unfold filled. destruct (fr_subs f0) as [|x t]; [contradiction|]. unfold nlen. cbn [length]. rewrite Bool.andb_false_r. reflexivity. }
+  destruct (lk_int0 (groups s) nm_POINT nm_USED) as [u|] eqn:Eu; [|discriminate].
+  assert (I2' := I2). assert (I5' := I5). assert (I8' := I8).
+  rewrite Ef in I2', I5', I8', I10. cbn [filter] in I2', I5', I8'. rewrite F0 in I2', I5', I8', I10. cbn [forallb] in I2', I5', I8'.
+  apply andb_prop in I2'. destruct I2' as [I2a _]. apply andb_prop in I5'. destruct I5' as [I5a _].
+  assert (Bf : h_byframe (hdr s) = nlen (fr_subs f0)) by lia.
+  assert (Bf1 : 1 <= h_byframe (hdr s)).
+  { rewrite Bf. destruct (fr_subs f0); [contradiction|]. unfold nlen. cbn [length]. lia. }
+  assert (Bf1b : (1 <=? h_byframe (hdr s)) = true) by lia.
+  rewrite Bf1b in I6, I7, I8, I8'. apply andb_prop in I8'. destruct I8' as [I8a _].
+  assert (Ua : u = nlen (fr_pts f0)) by lia.
+  assert (Na : nan_of f0 = a).
+  { unfold nan_of. destruct (fr_subs f0) as [|sf0 t]; [contradiction|]. cbn [forallb] in I8a. lia. }
+  apply andb_prop in I9. destruct I9 as [I9 I9h]. apply andb_prop in I9. destruct I9 as [I9 I9g]. apply andb_prop in I9. destruct I9 as [I9 I9f].
+  apply andb_prop in I9. destruct I9 as [I9 I9e]. apply andb_prop in I9. destruct I9 as [I9 I9d]. apply andb_prop in I9. destruct I9 as [I9 I9c].
+  apply andb_prop in I9. destruct I9 as [I9a I9b].
+  apply andb_prop in I10. destruct I10 as [I10a I10b].
+  assert (Pf : nlen (fr_pts f) = u).
+  { pose proof (lk_strs_count _ _ _ _ An1) as C. rewrite C in I9a. cbn [opt_eqb] in I9a. unfold nlen in *. rewrite map_length in I9a. lia. }
+  assert (Cf : forall sf, In sf (fr_subs f) -> nlen sf = a).
+  { intros sf Hin. pose proof (lk_strs_count _ _ _ _ (An3 sf Hin)) as C. rewrite C in I9d. cbn [opt_eqb] in I9d. unfold nlen in *. rewrite map_length in I9d. lia. }
+  assert (Fsub : fr_subs f <> []) by (intros E; rewrite E in An2; unfold nlen in An2; cbn [length] in An2; lia).
+  assert (Lp0 : lk_strs (groups s) nm_POINT nm_LABELS = Some (map pt_name (fr_pts f0))).
+  { destruct (lk_strs (groups s) nm_POINT nm_LABELS) as [l|]; [|discriminate]. apply strs_eqb_eq in I10a. rewrite I10a. reflexivity. }
+  assert (Lc0 : forall sf0 t, fr_subs f0 = sf0 :: t -> lk_strs (groups s) nm_ANALOG nm_LABELS = Some (map ch_name sf0)).
+  { intros sf0 t E. rewrite E in I10b. destruct (lk_strs (groups s) nm_ANALOG nm_LABELS) as [l|]; [|discriminate]. apply strs_eqb_eq in I10b. rewrite I10b. reflexivity. }
+  (* the store *)
+  set (k := N.to_nat i).
+  assert (P : put empty_frame (frames s) f (Some i) = Ok (replace_nth k f (frames s))).
+  { unfold put. assert (E : (i <? nlen (frames s)) = true) by lia. rewrite E. reflexivity. }
+  assert (Q2 : forallb (fun x => nlen (fr_pts x) =? u) (filter filled (replace_nth k f (frames s))) = true)
+    by (apply forallb_filter_replace; [exact I2|intros _; lia]).
+  assert (Q5 : forallb (fun x => nlen (fr_subs x) =? h_byframe (hdr s)) (filter filled (replace_nth k f (frames s))) = true)
+    by (apply forallb_filter_replace; [exact I5|intros _; lia]).
+  assert (Q8 : forallb (fun x => forallb (fun sf : subframe => nlen sf =? a) (fr_subs x)) (filter filled (replace_nth k f (frames s))) = true).
+  { apply forallb_filter_replace; [exact I8|]. intros _. apply forallb_forall. intros sf Hin. specialize (Cf sf Hin). lia. }
+  assert (Ln : nlen (replace_nth k f (frames s)) < 2147483648) by (unfold nlen in *; rewrite replace_nth_length; exact Sz1).
+  destruct k as [|k'] eqn:Ek.
+  - (* frame 0 is replaced: the new frame becomes the reference *)
+    apply (frame_call_keeps_inv f (Some i) s s' (replace_nth 0 f (frames s)) f ft u a HI0 HM P Eu Ha Ha0 Bf1); try assumption.
+    + rewrite Ef. reflexivity.
+    + unfold nan_of. destruct (fr_subs f) as [|sf0 t]; [contradiction|]. apply Cf. left. reflexivity.
+    + intros sf0 t E. apply An3. rewrite E. left. reflexivity.
+    + lia.
+  - apply (frame_call_keeps_inv f (Some i) s s' (replace_nth (S k') f (frames s)) f0 (replace_nth k' f ft) u a HI0 HM P Eu Ha Ha0 Bf1); try assumption.
+    + rewrite Ef. reflexivity.
+    + lia.
+    + lia.
+    + lia.
+Qed.
 End WithOps.
